@@ -144,6 +144,17 @@ def check(ctx):
             want = {'species': 'self.species', 'lattice': 'self.get_lattice()', 'metadata': 'self.metadata',
                     'base_positions': 'self.base_positions', 'time_step': 'self.time_step'}[k]
             src_ok = kv is not None and norm_text(kv) == want
+        wrong_frame = False
+        if present and call and not src_ok and k == 'base_positions':
+            kv = next((x.value for x in call[0].keywords if x.arg == k), None)
+            if isinstance(kv, ast.Subscript) and norm_text(kv.value) in ('self.positions', 'self.coords'):
+                try:
+                    wrong_frame = ast.literal_eval(kv.slice) != 0
+                except Exception:
+                    wrong_frame = False
+        if wrong_frame:
+            ctx.ob('R4', fa, f'{k}=', False, 'the base positions of the corrected trajectory are not the first frame of the source')
+            continue
         ctx.ob('R4', fa, f'{k}=', True if (present and src_ok) else (False if not present else None),
                f'{k} of the source trajectory' if (present and src_ok) else
                (f'`{k}` is not passed to the corrected trajectory: it silently falls back to the default' if not present else f'`{k}` is not taken from the source trajectory'))
